@@ -111,6 +111,7 @@ Inductive smsg :=
 | SMedia (mt from : N)
 | SRoomMsg (tag : N)
 | SDisinvite (room : N)
+| SRoomDeleted
 | SRoomlist (k : N)
 | SPart (all : N)
 | SFlags (sid flags : N)
@@ -168,6 +169,7 @@ Record room := mkroom {
   r_incall : list N;
   r_sessdata : alist N;            (* sid -> user id from the room session data *)
   r_transient : alist N;           (* key -> value *)
+  r_props : N;                     (* 0 = none, tag + 1 after an update *)
 }.
 
 Record conn := mkconn { c_addr : N; c_sess : option N; c_expect : bool }.
@@ -361,7 +363,7 @@ Definition room_remove (h : hub) (k : N * N) (sid : N) : hub :=
   | None => h
   | Some r =>
       if nmem sid r.(r_members) then
-        let r' := mkroom (nrem sid r.(r_members)) (nrem sid r.(r_incall)) (adel r.(r_sessdata) sid) r.(r_transient) in
+        let r' := mkroom (nrem sid r.(r_members)) (nrem sid r.(r_incall)) (adel r.(r_sessdata) sid) r.(r_transient) r.(r_props) in
         let h1 := set_rooms h (pset h.(h_rooms) k r') in
         let h2 := remove_room_if_empty h1 k in
         publish h2 (SubjRoom (fst k) (snd k)) (ARoomEvent (SLeave [sid]))
@@ -567,7 +569,7 @@ Definition do_hello (h : hub) (c : N) (cn : conn) (hl : hello) : hub * list out 
   end.
 
 (* ------------------------------------------------------------------ joining *)
-Definition empty_room : room := mkroom [] [] [] [].
+Definition empty_room : room := mkroom [] [] [] [] 0.
 
 (* disconnectByRoomSessionId *)
 Definition kick_room_session (h : hub) (rs : N) : hub * list out :=
@@ -608,7 +610,7 @@ Definition join_room (h : hub) (c sid : N) (k : N * N) (rs : N) (perms : option 
       | Some r =>
           let already := nmem sid r.(r_members) in
           let r' := mkroom (nadd sid r.(r_members)) r.(r_incall)
-                           (if N.eqb sessuser 0 then r.(r_sessdata) else aset r.(r_sessdata) sid sessuser) r.(r_transient) in
+                           (if N.eqb sessuser 0 then r.(r_sessdata) else aset r.(r_sessdata) sid sessuser) r.(r_transient) r.(r_props) in
           let h8 := set_rooms h7 (pset h7.(h_rooms) k r') in
           let uid := if N.eqb s.(s_user) 0 then sessuser else s.(s_user) in
           let h9 := if already then h8 else publish h8 (SubjRoom (fst k) (snd k)) (ARoomEvent (SJoin [(sid, uid)])) in
@@ -645,9 +647,9 @@ Definition do_join (h : hub) (c sid : N) (s : session) (rn rs : N) (rep : roomre
       let req := ToBackend (s.(s_backend), 1, 0, rn, (if N.eqb rs 0 then 2000000 + sid else rsv), 1) in
       (* the other holder of the Nextcloud session id is disconnected as soon as the backend
          answered, whatever it answered (the reply type is only looked at afterwards) *)
-      let '(h1, outs1) := if N.eqb rs 0 then (h, []) else kick_room_session h rsv in
+      let '(h1, outs1) := if N.eqb rs 0 || N.eqb s.(s_rs) rsv then (h, []) else kick_room_session h rsv in
       match get_sess h1 sid with
-      | None => (h1, req :: outs1)            (* the joining session kicked itself *)
+      | None => (h1, req :: outs1)            (* cannot happen: the holder of rsv is another session *)
       | Some _ =>
           match rep with
           | RepErr code => let '(h2, outs) := send_session h1 sid (SError code) in (h2, req :: outs1 ++ outs)
@@ -754,7 +756,7 @@ Definition leave_call (h : hub) (sid : N) : hub * list out :=
 
 Definition set_incall (h : hub) (k : N * N) (sid : N) (on : bool) : hub :=
   match room_of h k with
-  | Some r => set_rooms h (pset h.(h_rooms) k (mkroom r.(r_members) (if on then nadd sid r.(r_incall) else nrem sid r.(r_incall)) r.(r_sessdata) r.(r_transient)))
+  | Some r => set_rooms h (pset h.(h_rooms) k (mkroom r.(r_members) (if on then nadd sid r.(r_incall) else nrem sid r.(r_incall)) r.(r_sessdata) r.(r_transient) r.(r_props)))
   | None => h
   end.
 
@@ -767,8 +769,10 @@ Definition room_request (h : hub) (k : N * N) (q : apireq) : hub * list out :=
       | ADelete =>
           (* Room.Close: the room goes, every member leaves it (with notification), connected ones are told *)
           let members := r.(r_members) in
-          let h1 := set_rooms h (pdel h.(h_rooms) k) in
-          fold_sessions h1 members (fun hh m =>
+          let internals := filter (fun m => match get_sess h m with Some s => is_internal s.(s_kind) | None => false end) members in
+          let '(h0, outs0) := fold_sessions h internals (fun hh m => send_session hh m SRoomDeleted) in
+          let h1 := set_rooms h0 (pdel h0.(h_rooms) k) in
+          let '(h9, outs9) := fold_sessions h1 members (fun hh m =>
             match get_sess hh m with
             | None => (hh, [])
             | Some s =>
@@ -777,8 +781,12 @@ Definition room_request (h : hub) (k : N * N) (q : apireq) : hub * list out :=
                 else match s.(s_conn) with
                      | Some _ => let '(h3, outs2) := send_session h2 m (SRoom 0) in (h3, outs1 ++ outs2)
                      | None => (h2, outs1) end
-            end)
-      | AUpdate tag => (publish h (SubjRoom (fst k) (snd k)) (AEvent (SRoom (snd k)) 0 false), [])
+            end) in
+          (h9, outs0 ++ outs9)
+      | AUpdate tag =>
+          if N.eqb r.(r_props) (tag + 1) then (h, [])
+          else (publish (set_rooms h (pset h.(h_rooms) k (mkroom r.(r_members) r.(r_incall) r.(r_sessdata) r.(r_transient) (tag + 1))))
+                        (SubjRoom (fst k) (snd k)) (AEvent (SRoom (snd k)) 0 false), [])
       | AParticipants l => (publish h (SubjRoom (fst k) (snd k)) (AEvent (SPart 0) 0 false), [])
       | AInCall l =>
           let '(h1, outs) :=
@@ -815,7 +823,7 @@ Definition room_request (h : hub) (k : N * N) (q : apireq) : hub * list out :=
                 let notify := filter (fun m => match get_sess h m with
                                                | Some s => negb (is_virtual s.(s_kind)) | None => false end) r.(r_members) in
                 let leavers := r.(r_incall) in
-                let h1 := set_rooms h (pset h.(h_rooms) k (mkroom r.(r_members) [] r.(r_sessdata) r.(r_transient))) in
+                let h1 := set_rooms h (pset h.(h_rooms) k (mkroom r.(r_members) [] r.(r_sessdata) r.(r_transient) r.(r_props))) in
                 let '(h2, outs1) := fold_sessions h1 leavers leave_call in
                 let '(h3, outs2) := fold_sessions h2 notify (fun hh m => send_session hh m (SPart 1)) in
                 (h3, outs1 ++ outs2)
@@ -951,7 +959,11 @@ Definition do_internal (h : hub) (c sid : N) (s : session) (q : internalreq) : h
       | None => (h, [])
       | Some r =>
           let vs := h.(h_nextsid) + 1 in
-          let h0 := set_nextsid h vs in
+          let h00 := set_nextsid h vs in
+          (* a virtual session with the same id is replaced *)
+          let '(h0, outs0) := match pget h00.(h_vtable) (sid, v) with
+                              | Some prev => close_one (set_vtable h00 (pdel h00.(h_vtable) (sid, v))) prev
+                              | None => (h00, []) end in
           let incallfeat := match s.(s_kind) with KInternal f _ => f | _ => false end in
           let ic := match incall with Some x => x | None => if incallfeat then 0 else 5 end in
           let fl := match flags with Some x => x | None => 0 end in
@@ -961,13 +973,14 @@ Definition do_internal (h : hub) (c sid : N) (s : session) (q : internalreq) : h
           (* SetRoom: room session = own public id *)
           let h3 := rs_set h2 vs (2000000 + vs) in
           let h4 := put_sess h3 vs (sess_rs (sess_room vsess (Some k)) (2000000 + vs)) in
-          let r' := mkroom (nadd vs r.(r_members)) r.(r_incall) r.(r_sessdata) r.(r_transient) in
+          let r0 := match room_of h4 k with Some x => x | None => empty_room end in
+          let r' := mkroom (nadd vs r0.(r_members)) r0.(r_incall) r0.(r_sessdata) r0.(r_transient) r0.(r_props) in
           let h5 := set_rooms h4 (pset h4.(h_rooms) k r') in
           let h6 := publish h5 (SubjRoom (fst k) (snd k)) (ARoomEvent (SJoin [(vs, user)])) in
           let h7 := publish h6 (SubjRoom (fst k) (snd k)) (AEvent (SPart 0) 0 false) in
           let h8 := if N.eqb fl 0 then h7 else publish h7 (SubjRoom (fst k) (snd k)) (AEvent (SFlags vs fl) 0 false) in
           let h9 := publish h8 (SubjBackendRoom (fst k) (snd k)) (ASessionJoined vs false) in
-          (h9, [ToBackend (s.(s_backend), 2, 2, rn, vs, 1)])
+          (h9, outs0 ++ [ToBackend (s.(s_backend), 2, 2, rn, vs, 1)])
       end
   | IUpdate v rn flags incall =>
       let k := (s.(s_backend), rn) in
@@ -1089,14 +1102,14 @@ Definition step (h : hub) (o : op) : hub * list out :=
                      if N.eqb kindn 0 then
                        match aget r.(r_transient) key with
                        | Some v => if N.eqb v val then (h, [])
-                                   else let h1 := set_rooms h (pset h.(h_rooms) k (mkroom r.(r_members) r.(r_incall) r.(r_sessdata) (aset r.(r_transient) key val))) in
+                                   else let h1 := set_rooms h (pset h.(h_rooms) k (mkroom r.(r_members) r.(r_incall) r.(r_sessdata) (aset r.(r_transient) key val) r.(r_props))) in
                                         fold_sessions h1 listeners (fun hh m => send_session hh m (STransient 1 key))
-                       | None => let h1 := set_rooms h (pset h.(h_rooms) k (mkroom r.(r_members) r.(r_incall) r.(r_sessdata) (aset r.(r_transient) key val))) in
+                       | None => let h1 := set_rooms h (pset h.(h_rooms) k (mkroom r.(r_members) r.(r_incall) r.(r_sessdata) (aset r.(r_transient) key val) r.(r_props))) in
                                  fold_sessions h1 listeners (fun hh m => send_session hh m (STransient 1 key))
                        end
                      else
                        match aget r.(r_transient) key with
-                       | Some _ => let h1 := set_rooms h (pset h.(h_rooms) k (mkroom r.(r_members) r.(r_incall) r.(r_sessdata) (adel r.(r_transient) key))) in
+                       | Some _ => let h1 := set_rooms h (pset h.(h_rooms) k (mkroom r.(r_members) r.(r_incall) r.(r_sessdata) (adel r.(r_transient) key) r.(r_props))) in
                                    fold_sessions h1 listeners (fun hh m => send_session hh m (STransient 2 key))
                        | None => (h, [])
                        end
